@@ -276,24 +276,23 @@ def editStake (s : St) (a : Addr) (cur : App) (m : MsgStake) : Rc × St :=
     let s4 := setApplication s3 a app2
     (.ok, setStaked s4 a app2)
 
+/-- The record `StakeApplication` writes for a (re)staking address: a fresh `NewApplication`
+with the staked amount and the allowance computed after the coins moved. -/
+def freshApp (s1 : St) (m : MsgStake) : App :=
+  { pk := m.pk, status := stStaked, jailed := false, tokens := m.value,
+    maxRelays := s1.relays m.value, chains := m.chains, unstakingTime := 0 }
+
+/-- `Keeper.StakeApplication`, non-edit branch: coins to the pool, then the record. -/
+def stakeFresh (s : St) (m : MsgStake) : Rc × St :=
+  match toPool s m.addr m.value with
+  | none => (.sdk 10, s)
+  | some s1 => (.ok, setApplication s1 m.addr (freshApp s1 m))
+
 /-- `Keeper.StakeApplication`. -/
 def stakeApplication (s : St) (m : MsgStake) : Rc × St :=
   match get s.apps m.addr with
-  | some cur =>
-    if cur.status = stStaked then editStake s m.addr cur m else
-      match toPool s m.addr m.value with
-      | none => (.sdk 10, s)
-      | some s1 =>
-        let app : App := { pk := m.pk, status := stStaked, jailed := false, tokens := m.value,
-                           maxRelays := s1.relays m.value, chains := m.chains, unstakingTime := 0 }
-        (.ok, setApplication s1 m.addr app)
-  | none =>
-    match toPool s m.addr m.value with
-    | none => (.sdk 10, s)
-    | some s1 =>
-      let app : App := { pk := m.pk, status := stStaked, jailed := false, tokens := m.value,
-                         maxRelays := s1.relays m.value, chains := m.chains, unstakingTime := 0 }
-      (.ok, setApplication s1 m.addr app)
+  | some cur => if cur.status = stStaked then editStake s m.addr cur m else stakeFresh s m
+  | none => stakeFresh s m
 
 /-- `handleStake` (state after the ante handler). -/
 def handleStake (s : St) (signer : Addr) (m : MsgStake) : Rc × St :=
